@@ -391,6 +391,10 @@ func termNames(kind string, world int) []string {
 		return has(cl.mkString != nil, recv+".MakeString")
 	case "foreach":
 		return has(cl.foreach != nil, recv+".Foreach")
+	case "foldRightForce": // lazyarg.go (own batches, not in termKinds)
+		return has(cl.foldRight != nil, up("FoldRight"))
+	case "split": // split.go (own batches, not in termKinds): every world reaches the iterator
+		return []string{"iterator.Duplicate", "iterator.Partition", "iterator.Span"}
 	}
 	return nil
 }
